@@ -2,7 +2,7 @@
   Concrete histories used by Props/C03.lean: non-vacuity instances and counterexample witnesses,
   evaluated by the kernel through the structural twin `stepS?` (`run_eq_S`).
 -/
-import FileD.Lemmas.FileRestartSeq
+import FileD.Lemmas.FileRestartTrunc
 namespace FileD.PropsC03
 open FileD FileD.FileRestart FileD.SpecC03 FileD.SpecC06
 
@@ -145,5 +145,17 @@ def trBadOps : List Op :=
 theorem trBad_some : (TS.run (stepS? cfgAB) init trBadOps).isSome = true := by decide
 def sTrBad : State := (TS.run (stepS? cfgAB) init trBadOps).get trBad_some
 
+
+/-! after the truncation: one new line `a\n` is written, read and handed to the output -/
+def trPre : List Op :=
+  [.create 1 0, .append 1 fileA, .restart, .discover 1, .scanDone, .readTurn 1 [fileA],
+   .deliver x1, .deliver x2]
+def z1 : Ev := ⟨1, [97], 2, 3, [97, 10]⟩
+def trPost : List Op := [.ack x1, .commit x1, .append 1 [97, 10], .readTurn 1 [[97, 10]], .deliver z1]
+theorem trPre_some : (TS.run (stepS? cfgA) init trPre).isSome = true := by decide
+def sTrPre : State := (TS.run (stepS? cfgA) init trPre).get trPre_some
+theorem trAll_some :
+    (TS.run (stepS? cfgA) init (trPre ++ [.truncate 1, .readTurn 1 []] ++ trPost)).isSome = true := by decide
+def sTrAll : State := (TS.run (stepS? cfgA) init (trPre ++ [.truncate 1, .readTurn 1 []] ++ trPost)).get trAll_some
 
 end FileD.PropsC03
